@@ -80,7 +80,120 @@ def bounded_checks(tier, seed):
              "failed": res is not None, "input": res, "output": outp[-1500:]}]
 
 
+AWAITABLE_ZOO = r'''
+import asyncio, inspect, json, types
+from graphql.pyutils import is_awaitable
+from graphql import build_schema, execute
+
+async def coro():
+    return 1
+
+@types.coroutine
+def gen_coro():
+    yield
+    return 2
+
+def plain_gen():
+    yield 1
+
+async def agen():
+    yield 1
+
+class Aw:
+    def __await__(self):
+        return iter(())
+
+class NotAw:
+    __await__ = None
+
+bad = None
+
+async def main():
+    global bad
+    loop = asyncio.get_running_loop()
+    fut = loop.create_future(); fut.set_result(3)
+    task = asyncio.ensure_future(coro())
+    zoo = {"coroutine": coro(), "generator based coroutine (types.coroutine)": gen_coro(), "plain generator": plain_gen(),
+           "async generator": agen(), "future": fut, "task": task, "object with __await__": Aw(),
+           "None": None, "int": 1, "str": "s", "list": [], "coroutine function": coro}
+    for name, v in zoo.items():
+        want = inspect.isawaitable(v)
+        got = is_awaitable(v)
+        if bool(got) != want:
+            bad = {"value": name, "observed": f"is_awaitable -> {got}, `await value` is {'possible' if want else 'a TypeError'}"}
+            break
+    for v in zoo.values():
+        if inspect.iscoroutine(v):
+            v.close()
+    await task
+    if bad is None:
+        schema = build_schema("type Query { a: Int b: Int }")
+        r = execute(schema, __import__("graphql").parse("{ a b }"), {"a": lambda info: gen_coro(), "b": lambda info: coro()})
+        if inspect.isawaitable(r):
+            r = await r
+        if r.data != {"a": 2, "b": 1} or r.errors:
+            bad = {"value": "resolver returning a generator based coroutine",
+                   "observed": f"data {r.data!r} errors {r.errors!r}; awaited it would be {{'a': 2, 'b': 1}}"}
+asyncio.run(main())
+print("ZOO " + json.dumps(bad))
+'''
+
+
+TYPE_RESOLUTION = r'''
+import asyncio, inspect, itertools, json
+from graphql import (GraphQLField, GraphQLInt, GraphQLObjectType, GraphQLSchema, GraphQLString, GraphQLUnionType,
+                     execute, parse)
+bad = None
+async def main():
+    global bad
+    names = ["A", "B", "C"]
+    for truth in range(3):
+        for modes in itertools.product(("sync", "async"), repeat=3):
+            types = []
+            for i, n in enumerate(names):
+                def make(i=i):
+                    if modes[i] == "sync":
+                        return lambda value, info: i == truth
+                    async def f(value, info):
+                        await asyncio.sleep(0)
+                        return i == truth
+                    return f
+                types.append(GraphQLObjectType(n, {"x": GraphQLField(GraphQLInt)}, is_type_of=make()))
+            u = GraphQLUnionType("U", types)
+            schema = GraphQLSchema(GraphQLObjectType("Query", {"u": GraphQLField(u)}))
+            r = execute(schema, parse("{ u { __typename } }"), {"u": {"x": 1}})
+            if inspect.isawaitable(r):
+                r = await r
+            want = {"u": {"__typename": names[truth]}}
+            if r.data != want or r.errors:
+                bad = {"is_type_of": {n: f"{modes[i]}, {'True' if i == truth else 'False'}" for i, n in enumerate(names)},
+                       "observed": f"data {r.data!r} errors {[e.message for e in r.errors or []]!r}; expected {want!r}"}
+                return
+asyncio.run(main())
+print("TYPERES " + json.dumps(bad))
+'''
+
+
 def native_checks(tier, seed):
+    rc1, outp1 = run_native(TYPE_RESOLUTION)
+    tr = {"id": "C03/native/type-resolution-independent-of-which-is_type_of-are-async",
+          "failed": "TYPERES null" not in outp1, "output": outp1[-800:],
+          "input": "union of A, B, C; each is_type_of synchronous or a coroutine (all 8 mixes) x which one answers True: "
+                   "the resolved __typename must be that type"}
+    return [tr] + _native_checks0(tier, seed)
+
+
+def _native_checks0(tier, seed):
+    rc0, outp0 = run_native(AWAITABLE_ZOO)
+    zoo_failed = "ZOO null" not in outp0
+    zoo = {"id": "C03/native/is-awaitable-agrees-with-await", "failed": zoo_failed, "output": outp0[-800:],
+           "input": "is_awaitable(v) == inspect.isawaitable(v) over 12 kinds of value (coroutine, generator based "
+                    "coroutine, future, task, __await__ object, generators, plain values), and a resolver returning a "
+                    "generator based coroutine is awaited"}
+    return [zoo] + _native_checks(tier, seed)
+
+
+def _native_checks(tier, seed):
     rc, outp = run_native(WITNESS_F6)
     return [{"id": "C03/native/F6-subfield-memo-id-reuse", "failed": rc != 0, "output": outp,
              "input": "{ a{id} b{id} c{id} me{id} slow{bestFriend{name}} } with only slow awaitable, 60 runs"}]
